@@ -168,7 +168,8 @@ theorem advance_step {st st' : St} {k f : Nat} {pl ch ch' : Place} {pos : Nat} (
 theorem advance_pop {st st' : St} {k f : Nat} {pl ch : Place} {pos : Nat} (hs : st.sub = k + 1)
     (hp : Flat st k) (hw : PlWf pl) (hl : Lvl st k pl pos ch) (hc : childAt pl (pos + 1) true = none)
     (e : advance (f + 1) st = .ok st') :
-    st.cur ≠ some k ∧ ∃ st1, advance f st1 = .ok st' ∧ st1.sub = k ∧ Frame k st st1 ∧ st1.log = st.log := by
+    st.cur ≠ some k ∧ ∃ st1, advance f st1 = .ok st' ∧ st1.sub = k ∧ Frame k st st1 ∧ st1.log = st.log ∧
+      (st1.obj k).ty = (st.obj k).ty ∧ (st1.obj k).offset = (st.obj k).offset := by
   rw [advance] at e
   split at e
   · omega
@@ -206,7 +207,7 @@ theorem advance_pop {st st' : St} {k f : Nat} {pl ch : Place} {pos : Nat} (hs : 
         · cases e
         · rename_i hne
           exact ⟨fun h => hne (by simp only [St.setSlot]; exact h.symm),
-            _, e, rfl, hset _, rfl⟩
+            _, e, rfl, hset _, rfl, by simp [St.setSlot], by simp [St.setSlot]⟩
     · cases hch
   · -- struct
     rename_i tag size ms hty'
@@ -230,11 +231,11 @@ theorem advance_pop {st st' : St} {k f : Nat} {pl ch : Place} {pos : Nat} (hs : 
         · cases e
         · rename_i hne
           exact ⟨fun h => hne (by simp only [St.setSlot]; exact h.symm),
-            _, e, rfl, hset _, rfl⟩
+            _, e, rfl, hset _, rfl, by simp [St.setSlot], by simp [St.setSlot]⟩
   · -- union (or scalar)
     split at e
     · cases e
     · rename_i hne
-      refine ⟨fun h => hne (by exact h.symm), _, e, rfl, ⟨rfl, rfl, rfl, fun _ _ => rfl⟩, rfl⟩
+      refine ⟨fun h => hne (by exact h.symm), _, e, rfl, ⟨rfl, rfl, rfl, fun _ _ => rfl⟩, rfl, rfl, rfl⟩
 
 end CprocVerif.InitSim
